@@ -138,6 +138,36 @@ pub fn probes(d: &Digest) -> Vec<&'static str> {
             }
         }
     }
+    // scale probes: the sizes that the families long and fleet exist for were actually reached
+    if d.regs.len() >= 65_536 {
+        add("registrations_ge_65536");
+    }
+    for (s, sd) in d.stores.iter().enumerate() {
+        let mut thrs: Vec<usize> = sd.dispatches.iter().map(|&c| d.calls[c].thr).filter(|t| *t < THUNK_THR).collect();
+        thrs.sort_unstable();
+        thrs.dedup();
+        if thrs.len() >= 10 {
+            add("producer_threads_ge_10");
+        }
+        if thrs.len() >= 17 {
+            add("producer_threads_ge_17");
+        }
+        if sd.insts.len() >= 300 {
+            add("actions_ge_300");
+        }
+        let nregs = d.regs.values().filter(|x| x.1 == s).count();
+        if (17..1_000).contains(&nregs) {
+            add("registrations_ge_17");
+        }
+        if let Some(dch) = sd.dchan {
+            if d.ev.iter().any(|e| matches!(&e.k, K::ChSend { chan, len } if *chan == dch && *len >= 64)) {
+                add("dispatch_queue_depth_ge_64");
+            }
+        }
+    }
+    if d.stores.iter().filter(|sd| sd.built == Some(true)).count() >= 40 {
+        add("stores_ge_40");
+    }
     p
 }
 
